@@ -110,6 +110,7 @@ func runC07(c *report.Ctx) {
 	ruleReadySet(c, true, false)
 	ruleQueueHeadroom(c) // a rescan that spans several batches is re-queued by a non-blocking push: the slot must exist
 	ruleBestHeightReadWhileParked(c)
+	ruleStakingUseMarksStandardForm(c)
 
 	c.Rule("select-gate", "UseWallet selects a keystore only after CheckReady succeeded and reported ready", 1)
 	use := fn(c, pkgWallet, "WalletManager", "UseWallet")
